@@ -46,7 +46,8 @@ type Plan struct {
 	Network   string     `json:"network"` // unix or tcp
 	Transport string     `json:"transport"`
 	WaitMs    int        `json:"exit_wait_ms"`
-	Hook      string     `json:"hook"` // none, fast, 50ms, beyond-wait
+	Hook      string     `json:"hook"`                       // none, fast, 50ms, most-of-wait, beyond-wait
+	Sense     bool       `json:"sense_client_disconnection"` // standard transport only
 	Conns     []ConnPlan `json:"connections"`
 }
 
@@ -141,6 +142,9 @@ func runPlanInner(p *Plan) (msg string, log []string) {
 		opts = append(opts, server.WithTransport(netpoll.NewTransporter))
 	} else {
 		opts = append(opts, server.WithTransport(standard.NewTransporter))
+		if p.Sense {
+			opts = append(opts, server.WithSenseClientDisconnection(true))
+		}
 	}
 	h := server.New(opts...)
 	entered := make(chan int, 16)
@@ -170,7 +174,7 @@ func runPlanInner(p *Plan) (msg string, log []string) {
 	})
 	h.GET("/fast", func(c context.Context, ctx *app.RequestContext) { ctx.SetBodyString("fast") })
 	hookStarted := make(chan struct{}, 4)
-	var hooksStarted int32
+	var hooksStarted, hooksFinished int32
 	nhooks := 0
 	addHook := func(d time.Duration) {
 		nhooks++
@@ -180,6 +184,7 @@ func runPlanInner(p *Plan) (msg string, log []string) {
 			if d > 0 {
 				time.Sleep(d)
 			}
+			atomic.AddInt32(&hooksFinished, 1)
 		})
 	}
 	switch p.Hook {
@@ -187,6 +192,9 @@ func runPlanInner(p *Plan) (msg string, log []string) {
 		addHook(0)
 	case "50ms":
 		addHook(50 * time.Millisecond)
+		addHook(0)
+	case "most-of-wait":
+		addHook(wait * 6 / 10)
 		addHook(0)
 	case "beyond-wait":
 		addHook(wait + 300*time.Millisecond)
@@ -214,6 +222,18 @@ func runPlanInner(p *Plan) (msg string, log []string) {
 	}
 	time.Sleep(20 * time.Millisecond) // let the probe connection be accounted and closed
 
+	enteredSet := map[int]bool{}
+	waitEntered := func(id int) bool {
+		for k := 0; k < 5 && !enteredSet[id]; k++ {
+			select {
+			case got := <-entered:
+				enteredSet[got] = true
+				k--
+			case <-time.After(time.Second):
+			}
+		}
+		return enteredSet[id]
+	}
 	conns := make([]net.Conn, len(p.Conns))
 	defer func() {
 		for _, c := range conns {
@@ -250,6 +270,25 @@ func runPlanInner(p *Plan) (msg string, log []string) {
 			}
 		case "mid-request":
 			fmt.Fprintf(c, "GET /fast HTTP/1.1\r\nHo")
+		case "busy-client-gone":
+			// the client sends a request, its handler is entered, the client goes away, and the
+			// handler returns: all of it before Shutdown is called
+			fmt.Fprintf(c, "GET /park/%d HTTP/1.1\r\nHost: h\r\n\r\n", i)
+			if !waitEntered(i) {
+				return "harness: the handler of the client that goes away was not entered within 5 s", log
+			}
+			logf("handler %d entered (its client is about to go away)", i)
+			c.Close()
+			conns[i] = nil
+			time.Sleep(30 * time.Millisecond) // let the server notice
+			doRelease(i)
+			for k := 0; k < 400 && atomic.LoadInt64(&handlerDone[i]) == 0; k++ {
+				time.Sleep(5 * time.Millisecond)
+			}
+			if atomic.LoadInt64(&handlerDone[i]) == 0 {
+				return "harness: the handler of the client that went away did not return within 2 s", log
+			}
+			logf("client %d went away, its handler returned", i)
 		}
 	}
 	nbusy := 0
@@ -258,13 +297,15 @@ func runPlanInner(p *Plan) (msg string, log []string) {
 			nbusy++
 		}
 	}
-	for k := 0; k < nbusy; k++ {
-		select {
-		case id := <-entered:
-			logf("handler %d entered", id)
-		case <-time.After(5 * time.Second):
+	_ = nbusy
+	for i, cp := range p.Conns {
+		if cp.State != "busy" {
+			continue
+		}
+		if !waitEntered(i) {
 			return "harness: a busy handler was not entered within 5 s", log
 		}
+		logf("handler %d entered", i)
 	}
 	for i, cp := range p.Conns {
 		if cp.State == "busy" && cp.Release == "before" {
@@ -300,7 +341,11 @@ func runPlanInner(p *Plan) (msg string, log []string) {
 		}
 		if cp.State == "busy" && cp.Release == "after-hook+60ms" {
 			i := i
-			go func() { time.Sleep(60 * time.Millisecond); logf("released handler %d 60 ms after the hook fired", i); doRelease(i) }()
+			go func() {
+				time.Sleep(60 * time.Millisecond)
+				logf("released handler %d 60 ms after the hook fired", i)
+				doRelease(i)
+			}()
 		}
 	}
 	var shutdownErr error
@@ -317,6 +362,11 @@ func runPlanInner(p *Plan) (msg string, log []string) {
 	// that had reached its handler before Shutdown was called may still be in that handler
 	// (both timestamps are taken in the server process; no slack is involved)
 	if elapsed < wait-20*time.Millisecond {
+		// ... and every shutdown hook has run to its end (Shutdown waits for the hooks until they
+		// finish or the exit wait time is over)
+		if f := int(atomic.LoadInt32(&hooksFinished)); f != nhooks {
+			return fmt.Sprintf("Shutdown returned after %v, before the exit wait time (%v) was over, while only %d of %d shutdown hooks had finished", elapsed, wait, f, nhooks), log
+		}
 		ret := atomic.LoadInt64(&shutdownReturned)
 		for i, cp := range p.Conns {
 			if cp.State != "busy" {
@@ -398,10 +448,16 @@ func runPlanInner(p *Plan) (msg string, log []string) {
 }
 
 func genPlan(t *rapid.T, transport string) *Plan {
-	p := &Plan{Network: rapid.SampledFrom([]string{"unix", "tcp"}).Draw(t, "network"), Transport: transport, WaitMs: rapid.SampledFrom([]int{150, 150, 1500}).Draw(t, "wait"), Hook: rapid.SampledFrom([]string{"none", "fast", "50ms", "beyond-wait"}).Draw(t, "hook")}
+	p := &Plan{Network: rapid.SampledFrom([]string{"unix", "tcp"}).Draw(t, "network"), Transport: transport, WaitMs: rapid.SampledFrom([]int{150, 150, 1500}).Draw(t, "wait"), Hook: rapid.SampledFrom([]string{"none", "fast", "50ms", "most-of-wait", "beyond-wait"}).Draw(t, "hook")}
+	if transport == "standard" {
+		p.Sense = rapid.Bool().Draw(t, "senseClientDisconnection")
+	}
 	n := rapid.IntRange(1, 6).Draw(t, "nConns")
 	for i := 0; i < n; i++ {
-		cp := ConnPlan{State: rapid.SampledFrom([]string{"busy", "busy", "busy", "idle", "mid-request", "connected"}).Draw(t, "state")}
+		cp := ConnPlan{State: rapid.SampledFrom([]string{"busy", "busy", "busy", "idle", "mid-request", "connected", "busy-client-gone"}).Draw(t, "state")}
+		if cp.State == "busy-client-gone" {
+			cp.BodySize = 100
+		}
 		if cp.State == "busy" {
 			cp.BodySize = rapid.SampledFrom([]int{1, 100, 4096, 65536, 262144}).Draw(t, "bodySize")
 			cp.Release = rapid.SampledFrom([]string{"before", "after-hook", "after-hook+60ms", "after-hook+60ms", "after-wait"}).Draw(t, "release")
@@ -413,6 +469,9 @@ func genPlan(t *rapid.T, transport string) *Plan {
 
 func classify(p *Plan) (bool, []string) {
 	cls := []string{"network-" + p.Network, "transport-" + p.Transport, fmt.Sprintf("wait-%dms", p.WaitMs), "hook-" + p.Hook}
+	if p.Sense {
+		cls = append(cls, "sense-client-disconnection")
+	}
 	busyLate, other := false, false
 	for _, c := range p.Conns {
 		cls = append(cls, "conn-"+c.State)
